@@ -159,6 +159,13 @@ func c14SourceWords(helper string) (words []string, dropped int) {
 			case *ast.ImportSpec:
 				return false
 			case *ast.BasicLit:
+				if x.Kind == token.CHAR {
+					// a character the code compares with ('@', '.', '-') is a one-letter word
+					if ch, err := strconv.Unquote(x.Value); err == nil && len(ch) == 1 && ch[0] > 0x20 && ch[0] < 0x7F && !(ch[0] >= '0' && ch[0] <= '9') {
+						set[ch] = true
+					}
+					return true
+				}
 				if x.Kind != token.STRING {
 					return true
 				}
